@@ -339,10 +339,31 @@ func (r *c07Run) dfs(ctx sdk.Context, depth, maxDepth int, path []string, first 
 		r.st.Incomplete = true
 		return
 	}
+	// ISOLATION (see c14.go): the parent state must look the same through the keepers before and after
+	// every DISCARDED child branch
+	fp0 := r.key(ctx)
+	last := -1
+	iso := func() {
+		if last < 0 || r.st.Polluted {
+			return
+		}
+		r.st.Clauses["discarded_branch_isolation"]++
+		if fp := r.key(ctx); fp != fp0 {
+			r.find(Finding{Clause: "discarded_branch_changed_what_the_parent_sees", Culprit: r.ops[last].Kind, Disc: "", Detail: fmt.Sprintf("after exploring and DISCARDING the branch of op %s, the vault reads differently on the untouched parent state (TotalValue|supply|cash|sharesA|sharesB|debt|time):\nbefore: %s\nafter:  %s", r.ops[last].Name, fp0, fp)}, append(append([]string{r.name}, path...), "discard:"+r.ops[last].Name))
+			r.st.Polluted = true
+			r.st.Incomplete = true
+		}
+	}
+	defer iso()
 	for oi, op := range r.ops {
 		if depth == 0 && first >= 0 && oi != first {
 			continue
 		}
+		iso()
+		if r.st.Polluted {
+			return
+		}
+		last = oi
 		np := append(path, op.Name)
 		c, _ := ctx.CacheContext()
 		r.st.Evaluations++
@@ -439,7 +460,27 @@ func c07RunUnit(w *World, u c07Unit, deadline time.Time, fixed []string) *KStats
 	if fixed != nil {
 		ctx := base
 		for d, name := range fixed {
+			discard := strings.HasPrefix(name, "discard:")
+			name = strings.TrimPrefix(name, "discard:")
 			for _, op := range r.ops {
+				if op.Name == name && discard {
+					fp0 := r.key(ctx)
+					dc, _ := ctx.CacheContext()
+					keep := r.st.Findings
+					if op.Kind == "elapse" {
+						// nothing executes
+					} else if op.Kind == "accrue" {
+						dc = dc.WithBlockTime(dc.BlockTime().Add(time.Duration(op.Amt) * time.Second)).WithBlockHeight(dc.BlockHeight() + 1)
+						r.apply(ctx2(dc, -op.Amt), op, fixed[:d+1])
+					} else {
+						r.apply(dc, op, fixed[:d+1])
+					}
+					r.st.Findings = keep
+					if fp := r.key(ctx); fp != fp0 {
+						r.find(Finding{Clause: "discarded_branch_changed_what_the_parent_sees", Culprit: op.Kind, Disc: "", Detail: fmt.Sprintf("before: %s\nafter:  %s", fp0, fp)}, append([]string{r.name}, fixed[:d+1]...))
+					}
+					continue
+				}
 				if op.Name == name {
 					c, _ := ctx.CacheContext()
 					r.st.Evaluations++
@@ -575,7 +616,12 @@ func c07Worker(tier string) KUnitFunc {
 		if err := json.Unmarshal(raw, &u); err != nil {
 			return &KStats{HarnessErr: err.Error()}
 		}
-		return c07RunUnit(w, u, deadline, nil)
+		st := c07RunUnit(w, u, deadline, nil)
+		if st.Polluted {
+			w.Close()
+			w = NewWorld(FixtureCfg{})
+		}
+		return st
 	}
 }
 
